@@ -23,6 +23,7 @@ def check(ctx):
     provrules.rule_first_item(ctx, facts, "R2")
     provrules.rule_token_order_preserved(ctx, facts, "R2")
     provrules.rule_extraction_never_gives_up(ctx, facts, "R3")
+    provrules.rule_token_answer_only_tokenless(ctx, facts, "R3")
     # extraction from inside a property closure: the closure must not run under the stack borrow (C07-R2)
     from .. import panics
     inv = panics.Inventory(ctx, facts)
